@@ -403,6 +403,26 @@ static void run_C03(const Args &a, long cs) {
 		c03_compare<double>(s, T, C, r, x, "double");
 		count("points");
 	}
+	// ---- the same handle after its order pattern has changed in place (permutation, convolution through the C interface): whatever the C entry points keep
+	// between calls belongs to the table as it was; values through C must still be the member's, bit for bit. (T2 gets the same change through the C++ calls.)
+	if (C.ok && !g_nan_equiv && tot <= 20000 && nd <= 8) {
+		bool differ = false; for (int d = 1; d < nd; d++) if (s.order[d] != s.order[0]) differ = true;
+		Table T2; if (!load(T2, s)) return; bool changed = false; std::string how;
+		if (nd >= 2 && (differ || r.coin(0.3))) { std::vector<size_t> perm(nd); for (int d = 0; d < nd; d++) perm[d] = d; for (int tries = 0; tries < 8; tries++) { for (int i = nd - 1; i > 0; i--) std::swap(perm[i], perm[r.below(i + 1)]); bool moved = false; for (int d = 0; d < nd; d++) if (s.order[perm[d]] != s.order[d]) moved = true; if (moved || !differ) break; }
+			phase("C:splinetable_permute on a handle that has been evaluated"); std::vector<size_t> pc = perm; if (splinetable_permute(&C.h, pc.data()) == 0) { T2.permuteDimensions(perm); changed = true; how = "permuted"; } }
+		else { int cd = (int)r.below(nd); bool inc = true; for (size_t i = 1; i < s.knots[cd].size(); i++) if (!(s.knots[cd][i] > s.knots[cd][i - 1])) inc = false; double span = s.knots[cd].back() - s.knots[cd][0]; double kn[2] = {-0.05 * span, 0.07 * span};
+			if (inc && s.order[cd] < 5) { phase("C:splinetable_convolve on a handle that has been evaluated"); if (splinetable_convolve(&C.h, cd, kn, 2) == 0) { T2.convolve((uint32_t)cd, kn, 2); changed = true; how = "convolved"; } } }
+		if (changed) {
+			count("C-handles-changed-in-place-after-evaluation:" + how); std::vector<double> y(nd); std::vector<int> cc(nd), c5(nd); bool fin = true; for (uint64_t i = 0; i < T2.get_ncoeffs(); i++) if (!std::isfinite(T2.get_coefficients()[i])) fin = false;
+			for (int p = 0; p < 12 && fin; p++) {
+				for (int d = 0; d < nd; d++) { const double *k = T2.get_knots(d); uint64_t nk = T2.get_nknots(d); y[d] = k[0] + (k[nk - 1] - k[0]) * r.U(); }
+				if (!T2.searchcenters(y.data(), cc.data())) continue; if (tablesearchcenters(&C.h, y.data(), c5.data()) == 0 || cc != c5) { viol("C03:searchcenters:C-differs-from-member-after-the-handle-was-" + how + "-in-place", "{\"table\":" + s.brief() + "}"); break; }
+				double v1 = T2.ndsplineeval<float>(y.data(), cc.data(), 0), v5 = ::ndsplineeval(&C.h, y.data(), cc.data(), 0); count("comparisons:C-after-in-place-change");
+				if (!biteq(v1, v5)) { viol("C03:value:member-vs-C:after-the-handle-was-" + how + "-in-place", "{\"member\":" + jhex(v1) + ",\"C\":" + jhex(v5) + ",\"member_dec\":" + jnum(v1) + ",\"C_dec\":" + jnum(v5) + ",\"table\":" + s.brief() + "}"); break; }
+				if (nd < 8) { std::vector<double> g1(nd + 1), g5(nd + 1); T2.ndsplineeval_gradient<float>(y.data(), cc.data(), g1.data()); ::ndsplineeval_gradient(&C.h, y.data(), cc.data(), g5.data()); if (memcmp(g1.data(), g5.data(), 8 * (nd + 1))) { viol("C03:gradient:member-vs-C:after-the-handle-was-" + how + "-in-place", "{\"table\":" + s.brief() + "}"); break; } }
+			}
+		}
+	}
 	sample("{\"table\":" + s.brief() + ",\"points\":" + std::to_string(npts) + ",\"block\":" + std::to_string(blk) + "}");
 }
 
